@@ -167,6 +167,11 @@ def inject_history(tid, seed, nvars, steps, tmpdir, dyn=False, p_inject=0.3):
             tr.call('other', dict(what='lower_threshold'), lower)
         if rng.random() < p_inject and held:
             ks = reject_kinds(tr, rng, tmpdir)
+            if dyn:
+                # a full table DURING A LEVEL SWAP is a known finding with its own
+                # dedicated trace (full_reorder_trace): the manager is unusable
+                # afterwards, so it cannot sit in the middle of a history
+                ks = [k for k in ks if k[0] != 'full.table']
             kind, detail, fn = rng.choice(ks)
             tr.call('reject', dict(kind=kind, detail=detail), fn,
                     expect_ok=False)
@@ -213,3 +218,35 @@ def inject_history(tid, seed, nvars, steps, tmpdir, dyn=False, p_inject=0.3):
             tr.gc()
     tr.meta['kinds'] = sorted({k for k, _ in kinds_seen})
     return tr, kinds_seen
+
+
+def full_reorder_trace(tid, seed):
+    """`max_nodes` reached in the middle of a level swap (explicit reordering
+    or sifting): the last event of its trace."""
+    rng = random.Random(seed)
+    names = history.ALL_NAMES[:5]
+    tr = Trace(tid, names, seed=seed, meta=dict(driver='full_reorder', seed=seed))
+    for nm in names:
+        tr.add_var(nm)
+    b = tr.bdd
+    for _ in range(4):
+        tt = rng.randrange(1, (1 << 32) - 1)
+        tr.build(tt, lambda: history.build_tt(tr, names, tt), 5)
+    tr.gc()
+    room = rng.choice([0, 1, 2])
+
+    def go():
+        b.max_nodes = max(b._succ) + 1 + room
+        try:
+            if rng.random() < 0.5:
+                o = list(names)
+                rng.shuffle(o)
+                history._B_reorder(b, {v: i for i, v in enumerate(o)})
+            else:
+                history._B_reorder(b)
+            return 0
+        finally:
+            import sys as _sys
+            b.max_nodes = _sys.maxsize
+    tr.call('reject', dict(kind='full.during_reorder', detail=room), go, expect_ok=False)
+    return tr
